@@ -152,6 +152,9 @@ func (x *Exec) binop(op token.Token, xt types.Type, a, b Value, yt types.Type, p
 		var eq *smt.Term
 		if _, isSig := xt.Underlying().(*types.Signature); isSig {
 			eq = smt.Eq(av[0].(*smt.Term), b.(Agg)[0].(*smt.Term))
+		} else if _, isSlice := xt.Underlying().(*types.Slice); isSlice {
+			// slices compare only against nil
+			eq = smt.Eq(av[0].(*smt.Term), b.(Agg)[0].(*smt.Term))
 		} else {
 			eq = x.deepEq(xt, a, b)
 		}
